@@ -21,10 +21,22 @@ Inductive case : Type :=
 (* NodeVisitor.Run over the abstract tree with the rows of NameToRangesMap; ranges handed to the callback *)
 | CWalk (t : tree) (rm : rangemap) (fb : bool) (r : obs (list range))
 (* VolumeOf(MemRanges{unresolve r}) given what the walker reports for the image *)
-| CVolumeOf (size : Z) (nodes : list (bool * range)) (r : range) (res : obs (list range)).
+| CVolumeOf (size : Z) (nodes : list (bool * range)) (r : range) (res : obs (list range))
+(* MeasurePCR0DATA.Actions: [first] = physical address of the first entry of the BPM's IBB digest
+   list, [ds] = (algorithm, buffer length) of the entries as decoded by the harness from the bytes;
+   res = per measured algorithm (SHA1, SHA256) the (address, length) of the ibbDigest reference,
+   None = no measurement was emitted for it *)
+| CDigestRefs (first : Z) (ds : digest_shape) (res : list (option range)).
 
 Definition range_eqb (a b : range) : bool := (fst a =? fst b) && (snd a =? snd b).
 Definition ranges_eqb := list_eqb range_eqb.
+
+Definition orange_eqb (a b : option range) : bool :=
+  match a, b with
+  | Some x, Some y => range_eqb x y
+  | None, None => true
+  | _, _ => false
+  end.
 
 Definition check (c : case) : bool :=
   match c with
@@ -45,6 +57,7 @@ Definition check (c : case) : bool :=
   | CCalcOff l addr r => obs_match Z.eqb r (calc_image_offset l addr)
   | CWalk t rm fb r => obs_match ranges_eqb r (walk rm fb t)
   | CVolumeOf size nodes q res => obs_match ranges_eqb res (volume_of_one size nodes q)
+  | CDigestRefs first ds res => list_eqb orange_eqb res (pcr0_digest_refs first ds)
   end.
 
 Definition mismatches := mismatches_by check.
